@@ -36,7 +36,9 @@ Record rep (P : Z -> Prop) (st : bool) (n0 : nat) (done : list d4token) (b : bst
   rp_total : bs_total b = Nat.max n0 (d4_maxvar done);
   (* NodeIndex::new(0) is the node of the first declaration *)
   rp_first : forall x, nth_error (bs_idx b) 0 = Some x -> x = 0;
-  rp_empty : bs_idx b = [] -> ls_g (bs_ls b) = sg_empty
+  rp_empty : bs_idx b = [] -> ls_g (bs_ls b) = sg_empty;
+  (* a node that is not declared is a literal leaf or an expansion And *)
+  rp_class : forall y t, sg_label (ls_g (bs_ls b)) y = Some t -> In y (bs_idx b) \/ is_litk t \/ t = GAnd
 }.
 
 (* ---------- small facts ---------- *)
@@ -124,7 +126,7 @@ Lemma rep_decl n0 done b t k : rep P st n0 done b -> d4_kind t = [k] -> d4_token
 Proof.
   intros HR Hk Hmax Hne. unfold decl.
   destruct (add_node rc (tid_of_kind k) (ls_g (bs_ls b))) as [x g'] eqn:Ha.
-  pose proof HR as [[HI Hl Hp Hinj Hsr] Htri Hnd Hdecl Hedges Hrange Htot Hfirst Hempty].
+  pose proof HR as [[HI Hl Hp Hinj Hsr] Htri Hnd Hdecl Hedges Hrange Htot Hfirst Hempty Hclass].
   pose proof (add_node_ext rc _ _ _ _ [] HI Ha) as He.
   pose proof (add_node_fresh rc _ _ _ _ HI Ha) as Hfresh.
   pose proof (add_node_label_new rc _ _ _ _ HI Ha) as Hlx.
@@ -169,6 +171,9 @@ Proof.
       unfold add_node in Ha. cbn in Ha. destruct rc; now injection Ha as <- _.
     + cbn [app nth_error] in Hz. now apply Hfirst.
   - intros E. destruct (bs_idx b); discriminate.
+  - intros y ty Hy. destruct (add_node_label_cases rc _ _ _ _ _ _ Ha Hy) as [[-> _]|[_ H0]].
+    + left. apply in_or_app. right. now left.
+    + destruct (Hclass y ty H0) as [H1|H1]; [left; apply in_or_app; now left|now right].
 Qed.
 
 (* ---------- the literal leaves of an edge ---------- *)
@@ -289,6 +294,42 @@ Proof.
         -- apply (lit_nodes_ext _ _ _ _ _ He35), (lit_nodes_ext _ _ _ _ _ He23), (lit_nodes_ext _ _ _ _ _ He22). exact Hn1.
 Qed.
 
+Lemma get_lits_S : forall ls s lns s', get_lits rc ls s = (lns, s') ->
+  forall y t, sg_label (ls_g s') y = Some t -> sg_label (ls_g s) y = Some t \/ is_litk t.
+Proof.
+  induction ls as [|l r IH]; intros s lns s' H y t Hy; cbn [get_lits] in H.
+  - injection H as <- <-. now left.
+  - destruct (get_lit rc l s) as [x s1] eqn:E1. destruct (get_lits rc r s1) as [xs s2] eqn:E2.
+    injection H as <- <-. destruct (IH _ _ _ E2 y t Hy) as [H1|H1]; [|now right].
+    exact (proj1 (get_lit_S rc _ _ _ _ E1) y t H1).
+Qed.
+
+Lemma add_edges_to_S an : forall bs s s', add_edges_to an bs s = Some s' ->
+  forall y, sg_label (ls_g s') y = sg_label (ls_g s) y.
+Proof.
+  induction bs as [|b r IH]; intros s s' H y; cbn [add_edges_to] in H.
+  - now injection H as <-.
+  - destruct (ls_add_edge an b s) as [s1|] eqn:E1; [|discriminate].
+    rewrite (IH _ _ H y). exact (proj1 (ls_add_edge_S _ _ _ _ E1) y).
+Qed.
+
+Lemma resolve_S a c fs s1 s2 : resolve_weighted_edge rc a c fs s1 = Some s2 ->
+  forall y t, sg_label (ls_g s2) y = Some t -> sg_label (ls_g s1) y = Some t \/ is_litk t \/ t = GAnd.
+Proof.
+  intros H y t Hy. unfold resolve_weighted_edge in H.
+  destruct (get_lits rc fs s1) as [lns s1'] eqn:El.
+  pose proof (get_lits_S fs s1 lns s1' El) as Hl.
+  destruct lns as [|ln0 lns'].
+  - injection H as <-. destruct (Hl y t Hy) as [H1|H1]; auto.
+  - destruct (add_node rc GAnd (ls_g s1')) as [an g2] eqn:Ha.
+    destruct (ls_add_edge a an (with_g s1' (remove_edge a c g2))) as [s3|] eqn:E3; [|discriminate].
+    destruct (add_edges_to an (ln0 :: lns') s3) as [s4|] eqn:E4; [|discriminate].
+    rewrite (proj1 (ls_add_edge_S _ _ _ _ H) y), (add_edges_to_S _ _ _ _ E4 y), (proj1 (ls_add_edge_S _ _ _ _ E3) y) in Hy.
+    cbn [with_g ls_g] in Hy. rewrite remove_edge_label in Hy.
+    destruct (add_node_label_cases rc _ _ _ _ _ _ Ha Hy) as [[_ ->]|[_ H0]]; [now right; right|].
+    destruct (Hl y t H0) as [H1|H1]; auto.
+Qed.
+
 Lemma idx_get_spec idx i a : idx_get idx i = Some a ->
   (0 < i)%Z /\ 1 <= Z.to_nat i /\ nth_error idx (Z.to_nat i - 1) = Some a.
 Proof.
@@ -306,7 +347,7 @@ Proof.
   destruct (ls_add_edge a c (bs_ls b)) as [s1|] eqn:E1; [|discriminate].
   destruct (resolve_weighted_edge rc a c fs s1) as [s2|] eqn:E2; [|discriminate].
   injection H as <-.
-  pose proof HR as [Hc Htri Hnd Hdecl Hedges Hrange Htot Hfirst Hempty].
+  pose proof HR as [Hc Htri Hnd Hdecl Hedges Hrange Htot Hfirst Hempty Hclass].
   assert (Hga : st = true -> gate_at (ls_g (bs_ls b)) a).
   { intros Hst. destruct (Hgf Hst) as [k [Hk Hkg]].
     unfold idx_get in Ea. destruct (0 <? from)%Z; [|discriminate].
@@ -352,6 +393,8 @@ Proof.
   - rewrite d4_maxvar_snoc, fold_left_max, Htot. cbn [d4_token_max]. lia.
   - exact Hfirst.
   - intros E. rewrite E in Hfa. destruct (Z.to_nat from - 1); discriminate.
+  - intros z tz Hz. destruct (resolve_S _ _ _ _ _ E2 z tz Hz) as [H1|H1]; [|now right].
+    rewrite (proj1 (ls_add_edge_S _ _ _ _ E1) z) in H1. now apply Hclass.
 Qed.
 
 (* ---------- the whole file ---------- *)
@@ -395,5 +438,6 @@ Proof.
   - cbn. lia.
   - intros x Hx. discriminate.
   - reflexivity.
+  - intros y t Hy. unfold sg_label in Hy. cbn in Hy. destruct y; discriminate.
 Qed.
 End Parse.
